@@ -32,7 +32,12 @@ ENTRIES = ["string", "file", "saveload", "dict_strict", "dict_lenient"]
 
 def cases(max_depth):
     return st.fixed_dictionaries({
-        "doc": S.doc_spec(max_depth=max_depth, dtype_members=True),
+        # lone surrogates (text JSON and YAML can hold, XML cannot) in a quarter of the documents
+        "doc": st.one_of([S.doc_spec(max_depth=max_depth, dtype_members=True)] * 3 +
+                         [S.doc_spec(max_depth=max_depth, dtype_members=True,
+                                     text_classes=S.TEXT_CLASS_NAMES + ["surrogate"])]),
+        "links": st.lists(st.tuples(st.integers(0, 20), st.integers(0, 20),
+                                    st.sampled_from(["link", "link", "include"])).map(list), max_size=2),
         "fmt": st.sampled_from(["JSON", "YAML"]),
         "entry": st.sampled_from(ENTRIES),
         "diff": st.booleans(),
@@ -103,8 +108,12 @@ def roundtrip(doc, fmt, entry, d):
     return None, loaded
 
 
+def has_surrogate(spec):
+    return any(0xD800 <= ord(c) <= 0xDFFF for c in json.dumps(spec, ensure_ascii=False))
+
+
 def body(case):
-    spec = case["doc"]
+    spec = S.add_links(copy.deepcopy(case["doc"]), case.get("links", []))
     fmt = case["fmt"]
     doc = build.build_doc(spec)
     expected = snap.content(doc)
@@ -137,7 +146,11 @@ def body(case):
         if snap.normalize(snap.content(doc)) != snap.normalize(expected):
             fails.append(failure("dict.write_mutates", "writing changed the document"))
         fails.extend(compare(expected, loaded, "dict.roundtrip"))
-        if case["diff"] and not fails:
+        if any(x.get("link") or x.get("include") for x in S.iter_secs(spec)):
+            classes.append("stored_link_or_include")
+        if has_surrogate(spec):
+            classes.append("text:surrogate")
+        if case["diff"] and not fails and not has_surrogate(spec):   # XML cannot hold a lone surrogate
             other = "YAML" if fmt == "JSON" else "JSON"
             try:
                 t2 = ODMLWriter(other).to_string(doc)
